@@ -26,7 +26,7 @@ TraceNext == TraceStep \/ TraceDone
 TraceSpec == TraceInit /\ [][TraceNext]_tvars
 
 Bad == CASE CHECK = "C28" -> C28Viol(Node)
-         [] CHECK = "C29" -> C29Viol(Node)
+         [] CHECK = "C29" -> C29Viol(Node) \cup (IF l = 1 THEN UNION {AggViol(Runs[run].agg[j]) : j \in 1..Len(Runs[run].agg)} ELSE {})
          [] CHECK = "C30" -> C30Viol(Node) \cup (IF l = 1 THEN LogicalViol(Runs[run].logical, Runs[run].root) ELSE {})
          [] CHECK = "C53" -> C53Viol(Node)
 
